@@ -1,4 +1,4 @@
-//! Engine `feeflow` (C09, C10): the real fee pipeline on cw-multi-test —
+//! Engine `feeflow` (C07, C09, C10): the real fee pipeline on cw-multi-test —
 //! fee collector + fee distributor + whale lair + pool factory with three constant-product pairs
 //! (uatom/uwhale, uusdc/uwhale, uatom/uusdc) + router + vault factory with three vaults
 //! (uwhale, uusdc, uatom) + a flash-loan borrower contract.
@@ -86,6 +86,27 @@
 //! A transaction whose nested message went through is judged as the sequence of plain ops it amounts to (see `run`);
 //! `conservation_across_transaction` (C10) is evaluated on the real bank balances of every collecting transaction.
 //!
+//! THE PIPELINE FROM INSIDE A FLASH-LOAN CALLBACK.  `inloan <h> <t> <sender> v<k> <amount> <exact|over<n>|short> -- <inner op>
+//! [args]`: `<sender>` makes the borrower contract (`AdvMsg::Borrow`) take a flash loan of `<amount>` on the REAL registered
+//! vault k; in its callback the borrower sends `<inner op>` (`newepoch claim fwd collect aggregate grace distasset colcfg
+//! addroute rmroute`: every message of the pipeline's contracts that needs no funds; its sender is the borrower, so the
+//! owner-only ones must be refused and revert the loan), then tops the vault up to the balance `after_trade` requires
+//! (`exact`), to `<n>` more (`over<n>`) or to one unit less (`short`: the whole transaction must revert) — it thereby
+//! makes up for the pending fees the vault paid out to the collector in mid-loan.  Recorded: `@vb=<the vault's bank
+//! balance before>`, `@vfees=<prot>.<flash>.<burn>` (fee shares from its `Config` query), and the inner op's own answers
+//! (`@outs @acc @xfail @sh`).  The observation line ends in `lvb=<the lending vault's bank balance after>`.  Judging: the
+//! loan's own effects are checked on the real bank balances and ledgers (`inloan_ledger_eq`: pending = pending before +
+//! charged (all-time ledger) - paid out of the bank balance in mid-loan; `inloan_vault_ends_with_fees`;
+//! `inloan_fee_charged_as_quoted`; `inloan_short_repayment_reverts`; `inloan_failed_leaves_no_trace`;
+//! `inloan_counter_restored`, all tagged C07 and C10), then the transaction is judged AS THE INNER OP by every monitor
+//! below (collection exactness, pipeline stages, take rate, epoch ledgers, conservation across the transaction) on the
+//! observation with the loan's own effects removed (the lender's pending ledger without the fee charged for this loan,
+//! its bank balance without what the borrower paid net of the loan).  Generator: 1 round in 3 the round's NewEpoch is
+//! sent from inside a loan (the lender mostly with fees pending: an ordinary loan on it comes first when it has none),
+//! about 1 in-round op in 12 is a direct collection / aggregation / refused message sent from inside a loan; amounts up
+//! to balance - pending, exactly that, one more (the vault then cannot pay its fees out and everything reverts), the
+//! whole balance.  Stats `inloan_*` (inner op x repay mode x outcome, pending on the lender, paid out in mid-loan).
+//!
 //! C07 monitors (`collect_*`): a direct or pipeline collection moves exactly the pending fees above the
 //! thresholds from each pair / vault to the collector, pair reserves and vault share backing unchanged
 //! (reserves move only by what the aggregation swaps of the same transaction traded), and nothing of what
@@ -166,13 +187,49 @@ pub enum AdvMsg {
     /// messages fails, the transaction's error is that message's whole chain
     DryRun { msgs: Vec<CosmosMsg> },
     Fail {},
+    /// THE FLASH-LOAN BORROWER: take a loan of `amount` on `vault`; in the callback send `msgs`, then top the vault up
+    /// to the balance its `after_trade` requires (`short`: to one unit less; otherwise to `extra` more)
+    Borrow { vault: String, denom: String, amount: cosmwasm_std::Uint128, msgs: Vec<CosmosMsg>, extra: cosmwasm_std::Uint128, short: bool },
+    /// the vault's callback (the loan is attached): the balance the vault has to reach = its balance now (down by the
+    /// loan) + `GetPaybackAmount`; then the nested messages; then `Repay`
+    LoanCallback { vault: String, denom: String, amount: cosmwasm_std::Uint128, msgs: Vec<CosmosMsg>, extra: cosmwasm_std::Uint128, short: bool },
+    /// after the nested messages: send whatever the vault's balance is short of `target` (+ `extra` / - 1)
+    Repay { vault: String, denom: String, target: cosmwasm_std::Uint128, extra: cosmwasm_std::Uint128, short: bool },
 }
 
 fn adv_contract() -> Box<dyn cw_multi_test::Contract<Empty>> {
     Box::new(
         ContractWrapper::new(
-            |_d, env: cosmwasm_std::Env, _i, msg: AdvMsg| -> Result<Response, StdError> {
+            |d: cosmwasm_std::DepsMut, env: cosmwasm_std::Env, _i, msg: AdvMsg| -> Result<Response, StdError> {
                 match msg {
+                    AdvMsg::Borrow { vault, denom, amount, msgs, extra, short } => Ok(Response::new().add_message(WasmMsg::Execute {
+                        contract_addr: vault.clone(),
+                        msg: to_json_binary(&v::ExecuteMsg::FlashLoan {
+                            amount,
+                            msg: to_json_binary(&AdvMsg::LoanCallback { vault, denom, amount, msgs, extra, short })?,
+                        })?,
+                        funds: vec![],
+                    })),
+                    AdvMsg::LoanCallback { vault, denom, amount, msgs, extra, short } => {
+                        let now = d.querier.query_balance(&vault, &denom)?.amount;
+                        let pay: v::PaybackAmountResponse = d.querier.query_wasm_smart(&vault, &v::QueryMsg::GetPaybackAmount { amount })?;
+                        let target = now.checked_add(pay.payback_amount).map_err(StdError::overflow)?;
+                        Ok(Response::new().add_messages(msgs).add_message(WasmMsg::Execute {
+                            contract_addr: env.contract.address.to_string(),
+                            msg: to_json_binary(&AdvMsg::Repay { vault, denom, target, extra, short })?,
+                            funds: vec![],
+                        }))
+                    }
+                    AdvMsg::Repay { vault, denom, target, extra, short } => {
+                        let now = d.querier.query_balance(&vault, &denom)?.amount;
+                        let need = target.saturating_sub(now);
+                        let pay = if short { need.saturating_sub(cosmwasm_std::Uint128::one()) } else { need.checked_add(extra).map_err(StdError::overflow)? };
+                        let mut r = Response::new().add_attribute("borrower_repaid", pay.to_string());
+                        if !pay.is_zero() {
+                            r = r.add_message(BankMsg::Send { to_address: vault, amount: coins(pay.u128(), denom) });
+                        }
+                        Ok(r)
+                    }
                     AdvMsg::Run { msgs } => Ok(Response::new().add_messages(msgs)),
                     AdvMsg::DryRun { msgs } => Ok(Response::new().add_messages(msgs).add_message(WasmMsg::Execute {
                         contract_addr: env.contract.address.to_string(),
@@ -1275,6 +1332,21 @@ impl World {
         }
         (pp, vp)
     }
+    /// `ProtocolFees { all_time: true }` of vault `i` (everything ever charged)
+    fn vault_all_time(&self, i: usize) -> u128 {
+        let res: Result<v::ProtocolFeesResponse, _> = self.app.wrap().query_wasm_smart(&self.vaults[i], &v::QueryMsg::ProtocolFees { all_time: true });
+        res.map(|r| r.fees.amount.u128()).unwrap_or(0)
+    }
+    /// the fee shares of vault `i` as its `Config` query reports them (atomics): protocol, flash-loan, burn
+    fn vault_fee_shares(&self, i: usize) -> Option<(u128, u128, u128)> {
+        let c: v::Config = self.app.wrap().query_wasm_smart(&self.vaults[i], &v::QueryMsg::Config {}).ok()?;
+        Some((c.fees.protocol_fee.share.atomics().u128(), c.fees.flash_loan_fee.share.atomics().u128(), c.fees.burn_fee.share.atomics().u128()))
+    }
+    /// raw storage item `LOAN_COUNTER` of vault `i`
+    fn vault_loan_counter(&self, i: usize) -> Option<u64> {
+        let raw = self.app.wrap().query_wasm_raw(self.vaults[i].to_string(), b"loan_counter".to_vec()).ok()??;
+        String::from_utf8(raw).ok()?.trim().parse::<u64>().ok()
+    }
     fn vault_pending(&self, i: usize) -> u128 {
         let res: v::ProtocolFeesResponse =
             self.app.wrap().query_wasm_smart(&self.vaults[i], &v::QueryMsg::ProtocolFees { all_time: false }).unwrap();
@@ -1660,6 +1732,24 @@ fn synth_claim(pre: &Obs, post: &Obs, ai: usize) -> Obs {
     mid
 }
 
+/// an `inloan` op in flight: the lending vault, the loan, and what the REAL vault / bank said before the transaction
+struct LoanCtx {
+    k: usize,
+    vault: Addr,
+    denom: String,
+    amount: u128,
+    mode: String,
+    extra: u128,
+    short: bool,
+    /// the lending vault's bank balance, pending and all-time protocol fees, the borrower's bank balance
+    vb0: u128,
+    p0: u128,
+    all0: u128,
+    adv0: u128,
+    /// the fees the vault quotes for the loan (`GetPaybackAmount`): protocol, flash-loan, burn
+    quote: Option<(u128, u128, u128)>,
+}
+
 /// a `reenter` op in flight: the armed hostile contract and the nested op
 struct ReCtx {
     hostile: Addr,
@@ -1860,6 +1950,9 @@ struct Gen {
     pre_gift_round: u64,
     /// last round in which NewEpoch was sent with the hostile contract armed
     reenter_round: u64,
+    /// last round in which NewEpoch was sent from inside a flash-loan callback, and the number of epochs then
+    inloan_round: u64,
+    inloan_n: u64,
 }
 
 impl Feeflow {
@@ -1878,6 +1971,7 @@ impl Feeflow {
         // vault named by `trig` (`p<k>` / `v<k>` = its CollectProtocolFees, `s<k>` = its Swap) is ARMED with the inner
         // message (sent by its helper, bonder u5), then the outer op runs as usual and is judged below
         let mut re: Option<ReCtx> = None;
+        let mut lo: Option<LoanCtx> = None;
         let mut rec: Vec<String> = vec![];
         let (op, args_owned): (&str, Vec<&str>) = if op == "reenter" {
             let Some(sep) = args_all.iter().position(|a| *a == "--") else { return ("bad-op".into(), vec![]) };
@@ -1953,9 +2047,61 @@ impl Feeflow {
                 dry_inner_swap_fail,
             });
             (oop, oargs)
+        } else if op == "inloan" {
+            // ---- `inloan <sender> v<k> <amount> <exact|over<n>|short> -- <inner op> <args…>`: the borrower contract takes a
+            // flash loan of <amount> on vault k and sends <inner op> FROM ITS CALLBACK, then repays; the inner op runs as
+            // usual (its sender is the borrower) and the transaction is judged below
+            if args_all.len() < 5 || args_all[3] != "--" || !args_all[0].starts_with('v') {
+                return ("bad-op".into(), vec![]);
+            }
+            let (Ok(k), Ok(amount)) = (args_all[0][1..].parse::<usize>(), args_all[1].parse::<u128>()) else { return ("bad-op".into(), vec![]) };
+            let mode = args_all[2];
+            let (extra, short) = match mode {
+                "exact" => (0u128, false),
+                "short" => (0, true),
+                m if m.starts_with("over") => match m[4..].parse::<u128>() {
+                    Ok(x) => (x, false),
+                    Err(_) => return ("bad-op".into(), vec![]),
+                },
+                _ => return ("bad-op".into(), vec![]),
+            };
+            let (iop, iargs) = (args_all[4], args_all[5..].to_vec());
+            if !matches!(iop, "newepoch" | "claim" | "fwd" | "collect" | "aggregate" | "grace" | "distasset" | "colcfg" | "addroute" | "rmroute")
+                || iargs.iter().any(|a| a.starts_with('+'))
+            {
+                return ("bad-op".into(), vec![]);
+            }
+            if k >= w.vaults.len() {
+                return ("bad-op".into(), vec![]);
+            }
+            let denom = w.assets[w.vault_assets[k]].clone();
+            let quote: Result<v::PaybackAmountResponse, _> = w.app.wrap().query_wasm_smart(&w.vaults[k], &v::QueryMsg::GetPaybackAmount { amount: amount.into() });
+            let l = LoanCtx {
+                k,
+                vault: w.vaults[k].clone(),
+                amount,
+                mode: if mode.starts_with("over") { "over".into() } else { mode.to_string() },
+                extra,
+                short,
+                vb0: bal(&w.app, &w.vaults[k], &denom),
+                p0: w.vault_pending(k),
+                all0: w.vault_all_time(k),
+                adv0: bal(&w.app, &w.adv, &denom),
+                quote: quote.ok().map(|q| (q.protocol_fee.u128(), q.flash_loan_fee.u128(), q.burn_fee.u128())),
+                denom,
+            };
+            // what the model does not contain: the vault's balance and its fee shares, as the real vault reports them
+            rec.push(format!("@vb={}", l.vb0));
+            let fs = w.vault_fee_shares(k).unwrap_or((0, 0, 0));
+            rec.push(format!("@vfees={}.{}.{}", fs.0, fs.1, fs.2));
+            lo = Some(l);
+            (iop, iargs)
         } else {
             (op, args_all.to_vec())
         };
+        // the sender of the message nested into a flash loan is the borrower contract; `signer` sends the transaction
+        let signer = sa.clone();
+        let (sa, uidx, sender) = if lo.is_some() { (w.adv.clone(), None, "borrower") } else { (sa, uidx, sender) };
         let args_all: &[&str] = &args_owned;
         // ---- trailing stray-coin tokens `+<asset idx>:<amount>` | `+j:<amount>`: coins attached to the message
         let ncoin = args_all.iter().rev().take_while(|a| a.starts_with('+')).count();
@@ -1997,7 +2143,7 @@ impl Feeflow {
         extra_funds.sort_by(|a, b| a.denom.cmp(&b.denom));
         let xf: &[cosmwasm_std::Coin] = &extra_funds;
         // the C07 collection monitors compare real balances / reserves / supplies around a collection
-        let xpre = if matches!(op, "collect" | "aggregate" | "newepoch") { Some(w.extra()) } else { None };
+        let xpre = if matches!(op, "collect" | "aggregate" | "newepoch") || lo.is_some() { Some(w.extra()) } else { None };
         let now = w.app.block_info().time.nanos();
         let pre = w.last.clone();
         let mut swaps: Vec<SwapEv> = vec![];
@@ -2006,9 +2152,16 @@ impl Feeflow {
         let mut page: (Vec<bool>, Vec<bool>) = (vec![], vec![]);
         let pn = |s: Option<&&str>| s.and_then(|x| x.parse::<u128>().ok());
         let (agent_addr, admin_addr) = (w.agent.clone(), w.admin.clone());
+        let loan_wrap: Option<(Addr, Addr, String, String, u128, u128, bool)> =
+            lo.as_ref().map(|l| (signer.clone(), w.adv.clone(), l.vault.to_string(), l.denom.clone(), l.amount, l.extra, l.short));
         let exec = |app: &mut App, s: &Addr, c: &Addr, m: &dyn erased::Msg, funds: &[cosmwasm_std::Coin]| -> Outcome<AppResponse> {
             let bin = m.bin();
             let msg: CosmosMsg = WasmMsg::Execute { contract_addr: c.to_string(), msg: bin, funds: funds.to_vec() }.into();
+            if let Some((signer, adv, vault, denom, amount, extra, short)) = loan_wrap.clone() {
+                // the message is sent by the borrower contract from inside its flash-loan callback
+                let borrow = to_json_binary(&AdvMsg::Borrow { vault, denom, amount: amount.into(), msgs: vec![msg], extra: extra.into(), short }).unwrap();
+                return guarded(|| app.execute(signer, WasmMsg::Execute { contract_addr: adv.to_string(), msg: borrow, funds: vec![] }.into()));
+            }
             if agent_addr.as_ref() == Some(s) {
                 // bonder u5 is a contract: it sends what it is told to, from its own address and balance
                 let run = to_json_binary(&AdvMsg::Run { msgs: vec![msg] }).unwrap();
@@ -2349,10 +2502,114 @@ impl Feeflow {
                 if !o_ok { "reverted" } else if !r.fired { "not_triggered" } else if r.inner_ok == Some(true) { "inner_ok" } else { "inner_refused_caught" }
             ));
         }
-        let post = w.observe();
-        let xpost = xpre.as_ref().map(|_| w.extra());
+        let post_raw = w.observe();
+        let xpost_raw = xpre.as_ref().map(|_| w.extra());
         let o3 = out3(&outcome);
-        mon.stat(&format!("op_{op}_{o3}"));
+        // ---- an `inloan` op: what the loan itself did to the lending vault and the borrower, judged on the real bank
+        // balances / ledgers; then the transaction is judged as the nested op on the observation WITH THE LOAN'S OWN
+        // EFFECTS REMOVED (the lending vault's pending ledger without the fee charged for this loan, its bank balance
+        // without what the borrower paid net of the loan): every collection / pipeline / conservation monitor below is
+        // thereby evaluated on the transaction that ran inside the loan
+        let mut lvb_tok = String::new();
+        let (post, xpost) = match &lo {
+            None => {
+                mon.stat(&format!("op_{op}_{o3}"));
+                (post_raw.clone(), xpost_raw.clone())
+            }
+            Some(l) => {
+                let (vb1, p1, all1, adv1) = (bal(&w.app, &l.vault, &l.denom), w.vault_pending(l.k), w.vault_all_time(l.k), bal(&w.app, &w.adv, &l.denom));
+                lvb_tok = format!(" lvb={vb1}");
+                let line = format!("inloan v{} {} {}{} -- {op} {}", l.k, l.amount, l.mode, if l.mode == "over" { l.extra.to_string() } else { String::new() }, args_all.join(" "));
+                let both = |mon: &mut Monitor, name: &str, ok: bool, what: String| {
+                    mon.check("C07", name, ok, || what.clone());
+                    mon.check("C10", name, ok, || what.clone());
+                };
+                mon.stat(&format!("op_inloan_{o3}"));
+                mon.stat(&format!("inloan_{op}_{}_{o3}", l.mode));
+                mon.stat(match l.p0 {
+                    0 => "inloan_lender_pending_zero",
+                    x if x <= THRESH => "inloan_lender_pending_le_1000",
+                    _ => "inloan_lender_pending_gt_1000",
+                });
+                if l.vb0.saturating_sub(l.amount) < l.p0 {
+                    mon.stat(&format!("inloan_loan_leaves_less_than_pending_{o3}"));
+                }
+                let ctr = w.vault_loan_counter(l.k);
+                both(mon, "inloan_counter_restored", ctr == Some(0), format!("{line}: LOAN_COUNTER of the lending vault is {ctr:?} after the transaction ({o3})"));
+                if o3 != "ok" {
+                    // a failed transaction (short repayment, refused nested message, fees that the loan-reduced balance
+                    // cannot cover) leaves no trace: not on the vault, not on the borrower, not on any pair / vault
+                    let xsame = match (xpre.as_ref(), xpost_raw.as_ref()) {
+                        (Some(a), Some(b)) => a.pool_bal == b.pool_bal && a.pool_res == b.pool_res && a.vault_bal == b.vault_bal && a.vault_sup == b.vault_sup,
+                        _ => false,
+                    };
+                    both(
+                        mon,
+                        "inloan_failed_leaves_no_trace",
+                        xsame && vb1 == l.vb0 && p1 == l.p0 && all1 == l.all0 && adv1 == l.adv0,
+                        format!(
+                            "{line}: failed ({o3}) but: lending vault balance {} -> {vb1}, pending {} -> {p1}, all-time fees {} -> {all1}, borrower {} -> {adv1}, other pair / vault balances unchanged: {xsame}",
+                            l.vb0, l.p0, l.all0, l.adv0
+                        ),
+                    );
+                    mon.stat(if l.short { "inloan_failed_short_repayment" } else { "inloan_failed_other" });
+                    (post_raw.clone(), xpost_raw.clone())
+                } else {
+                    both(mon, "inloan_short_repayment_reverts", !l.short, format!("{line}: the borrower repaid one unit less than required and the loan went through"));
+                    let (qp, qf, qb) = l.quote.unwrap_or((0, 0, 0));
+                    // what the vault's all-time ledger says it charged; what the borrower paid net of the loan; what the
+                    // vault paid out of its bank balance in mid-loan (beyond the burn)
+                    let charged = all1.checked_sub(l.all0);
+                    let spent = l.adv0.checked_sub(adv1);
+                    let bank_paid = spent.and_then(|x| l.vb0.checked_add(x)).and_then(|x| x.checked_sub(qb)).and_then(|x| x.checked_sub(vb1));
+                    // C07 on the lending vault ACROSS the transaction: pending = pending before + charged - transferred
+                    let ledger_ok = match (charged, bank_paid) {
+                        (Some(c), Some(b)) => p1.checked_add(b).is_some() && p1.checked_add(b) == l.p0.checked_add(c),
+                        _ => false,
+                    };
+                    both(
+                        mon,
+                        "inloan_ledger_eq",
+                        ledger_ok,
+                        format!(
+                            "{line}: lending vault {} ({}): pending {} + charged {charged:?} - paid out of its bank balance in mid-loan {bank_paid:?} != pending now {p1} (balance {} -> {vb1}, the borrower paid {spent:?} net of the loan): fees left the pending ledger without being transferred",
+                            l.k, l.denom, l.p0, l.vb0
+                        ),
+                    );
+                    both(
+                        mon,
+                        "inloan_fee_charged_as_quoted",
+                        l.quote.is_some() && charged == Some(qp),
+                        format!("{line}: the vault quoted a protocol fee of {:?} but its all-time ledger grew by {charged:?}", l.quote.map(|q| q.0)),
+                    );
+                    let want = l.vb0.checked_add(qp).and_then(|x| x.checked_add(qf)).and_then(|x| x.checked_add(l.extra));
+                    both(
+                        mon,
+                        "inloan_vault_ends_with_fees",
+                        l.quote.is_some() && Some(vb1) == want,
+                        format!("{line}: the lending vault held {} before the loan and holds {vb1} now; balance before + protocol fee {qp} + flash-loan fee {qf} + what the borrower paid on top {} = {want:?}", l.vb0, l.extra),
+                    );
+                    mon.stat(if bank_paid.unwrap_or(0) > 0 { "inloan_lender_paid_fees_in_mid_loan" } else { "inloan_lender_paid_nothing" });
+                    if op == "newepoch" {
+                        mon.stat("inloan_pipeline_run_ok");
+                        if l.p0 > 0 {
+                            mon.stat("inloan_pipeline_run_ok_with_fees_pending_on_lender");
+                        }
+                    }
+                    if op == "collect" && l.p0 > 0 && bank_paid.unwrap_or(0) > 0 {
+                        mon.stat("inloan_direct_collect_ok_with_fees_pending_on_lender");
+                    }
+                    mon.stat(&format!("inloan_amount_mag_{}", mag_bucket(l.amount)));
+                    let mut pj = post_raw.clone();
+                    pj.vp[l.k] = p1.saturating_sub(charged.unwrap_or(0));
+                    let mut xj = xpost_raw.clone();
+                    if let Some(x) = xj.as_mut() {
+                        x.vault_bal[l.k] = vb1.saturating_sub(spent.unwrap_or(0)).saturating_add(qb);
+                    }
+                    (pj, xj)
+                }
+            }
+        };
         if !stray.is_empty() {
             mon.stat(&format!("stray_{op}_{o3}"));
             mon.stat(&format!("stray_to_{:?}_{o3}", stray.target));
@@ -2432,8 +2689,8 @@ impl Feeflow {
                 Self::monitor_conservation(w, mon, &pre, &post, x0, x1, &swaps, &format!("{op} by {sender} {}", args_all.join(" ")));
             }
         }
-        w.last = post.clone();
-        (format!("{o3} {}{fired_tok}", post.line()), rec)
+        w.last = post_raw.clone();
+        (format!("{o3} {}{fired_tok}{lvb_tok}", post_raw.line()), rec)
     }
 
     /// C10 on the REAL bank balances of every transaction that collects / aggregates / creates an epoch (plain or with a
@@ -3486,6 +3743,8 @@ impl Engine for Feeflow {
                 stray_scen_done: false,
                 pre_gift_round: u64::MAX,
                 reenter_round: u64::MAX,
+                inloan_round: u64::MAX,
+                inloan_n: 0,
                 switch_rounds: {
                     // 1 history in 4 keeps one distribution asset throughout; the others switch 1 … 3 times
                     let rounds = grace + 2 + extra;
@@ -3698,6 +3957,55 @@ impl Feeflow {
     }
 }
 
+/// the vaults a flash loan can be taken on (the honest ones), and one of them: 3 times in 4 one with fees pending
+fn pick_lender(rng: &mut Rng, w: &World) -> Option<usize> {
+    let lenders: Vec<usize> = (0..w.vaults.len()).filter(|i| !w.vault_hostile[*i]).collect();
+    if lenders.is_empty() {
+        return None;
+    }
+    let with_fees: Vec<usize> = lenders.iter().copied().filter(|i| w.last.vp[*i] > 0).collect();
+    Some(if !with_fees.is_empty() && rng.chance(3, 4) { *rng.pick(&with_fees) } else { *rng.pick(&lenders) })
+}
+
+/// `<who> inloan v<k> <amount> <exact|over<n>|short> -- <inner op>`: the loan leaves the vault able to pay its pending
+/// fees out in mid-loan (amounts up to balance - pending, relative to the liquidity, tiny), just able, just unable
+/// (balance - pending + 1, the whole balance); the borrower repays exactly, generously, or one unit short
+fn gen_inloan(rng: &mut Rng, w: &World, who: &str, k: usize, inner: &str) -> String {
+    let denom = &w.assets[w.vault_assets[k]];
+    let b = bal(&w.app, &w.vaults[k], denom);
+    let room = b.saturating_sub(w.last.vp[k]);
+    let amount = match rng.below(12) {
+        0 => room,
+        1 => room.saturating_add(1).min(b),
+        2 => b,
+        3 => 1,
+        4 => rng.range(1, 5000) as u128,
+        5 | 6 | 7 => rel_amount(rng, w.vault_liq[k]).min(room),
+        _ => rel_amount(rng, room.max(1)).min(room),
+    }
+    .max(1);
+    let spare = bal(&w.app, &w.adv, denom) / 16;
+    let mode = match rng.below(10) {
+        0 | 1 => "short".to_string(),
+        2 => "over1".to_string(),
+        3 => format!("over{}", 1 + rng.below(100_000)),
+        4 => format!("over{}", wide_amount(rng).min(spare).max(1)),
+        _ => "exact".to_string(),
+    };
+    format!("{who} inloan v{k} {amount} {mode} -- {inner}")
+}
+
+/// an ordinary loan on vault `k` that leaves protocol fees pending there (around the thresholds, or free)
+fn gen_fee_loan(rng: &mut Rng, w: &World, k: usize) -> String {
+    let amt = match rng.below(5) {
+        0 => 100_000u128,
+        1 => 100_100,
+        2 => rng.range(1000, 500_000) as u128,
+        _ => rel_amount(rng, w.vault_liq[k]),
+    };
+    format!("admin loan {k} {amt}")
+}
+
 /// `<who> reenter <trig> <plain|catch> <inner op> -- <outer op>`: the trigger fits the outer op (a collection reaches
 /// the hostile pair's / vault's CollectProtocolFees, a pipeline run / an aggregation may also reach the pair's Swap)
 fn gen_reenter(rng: &mut Rng, w: &World, who: &str, outer: &str) -> Option<String> {
@@ -3787,6 +4095,16 @@ impl Feeflow {
         if self.g.phase == 0 && self.g.left == 0 {
             self.g.phase = 1;
         }
+        // the round's NewEpoch was sent from inside a flash-loan callback and created the epoch: 1 time in 2 that was
+        // the round's NewEpoch (otherwise the plain one follows at once: a catch-up a day later)
+        if self.g.phase == 1 && self.g.inloan_round == self.g.round && n_epochs > self.g.inloan_n && self.g.inloan_n != u64::MAX {
+            self.g.inloan_n = u64::MAX;
+            if rng.chance(1, 2) {
+                self.g.round += 1;
+                self.g.left = rng.range(3, 10);
+                self.g.phase = 0;
+            }
+        }
         if self.g.phase == 1 {
             // time for NewEpoch of the next round
             if self.g.round >= self.g.rounds && n_epochs >= last.grace + 2 {
@@ -3855,6 +4173,26 @@ impl Feeflow {
                 };
                 if let Some(body) = gen_reenter(rng, w, &who, "newepoch") {
                     // a route through the hostile pair so that its Swap is reached by the aggregation
+                    return Some(body);
+                }
+            }
+            // NewEpoch (due now) FROM INSIDE A FLASH-LOAN CALLBACK of a registered vault: once per round, 1 round in 3; the
+            // lender mostly has protocol fees pending (2 times in 3 an ordinary loan on it comes first when it has none)
+            if self.g.inloan_round != self.g.round && rng.chance(1, 3) {
+                if let Some(k) = pick_lender(rng, w) {
+                    self.g.inloan_round = self.g.round;
+                    self.g.inloan_n = n_epochs;
+                    let who = match rng.below(4) {
+                        0 => "admin".to_string(),
+                        1 => "stranger".to_string(),
+                        2 => "trader".to_string(),
+                        _ => format!("u{}", rng.below(NUSERS as u64)),
+                    };
+                    let body = gen_inloan(rng, w, &who, k, "newepoch");
+                    if last.vp[k] == 0 && rng.chance(2, 3) {
+                        self.g.setup.push(body);
+                        return Some(gen_fee_loan(rng, w, k));
+                    }
                     return Some(body);
                 }
             }
@@ -4048,6 +4386,46 @@ impl Feeflow {
                 }
             };
             if let Some(body) = gen_reenter(rng, w, &who, &outer) {
+                return Some(body);
+            }
+        }
+        // a message anybody can send to the collector / distributor, sent FROM INSIDE A FLASH-LOAN CALLBACK of a registered
+        // vault (about 1 in-round op in 12): direct collections (the factory page, the lender itself, another vault, the
+        // pairs), aggregations, and the messages that must be refused there as anywhere (the whole loan then reverts)
+        if rng.chance(1, 12) {
+            if let Some(k) = pick_lender(rng, w) {
+                let who = match rng.below(4) {
+                    0 => "admin".to_string(),
+                    1 => "stranger".to_string(),
+                    2 => "trader".to_string(),
+                    _ => format!("u{}", rng.below(NUSERS as u64)),
+                };
+                let lim = |rng: &mut Rng| -> String {
+                    if self.many && rng.chance(1, 2) { format!(" {}", rng.pick(&["-", "1", "5", "10", "11", "30", "99"])) } else { String::new() }
+                };
+                let inner = match rng.below(16) {
+                    0..=3 => format!("collect vfac{}", lim(rng)),
+                    4..=6 => format!("collect vault {k}"),
+                    7 => format!("collect vault {}", rng.below(nv)),
+                    8 => format!("collect pfac{}", lim(rng)),
+                    9 => format!("aggregate vfac{}", lim(rng)),
+                    10 => format!("aggregate pfac{}", lim(rng)),
+                    11 => "claim".to_string(),
+                    12 => "fwd".to_string(),
+                    13 => "newepoch".to_string(),
+                    14 => format!("grace {}", rng.range(1, 6)),
+                    _ => match rng.below(4) {
+                        0 => format!("colcfg rate={} dao=1 active=1", gen_rate(rng)),
+                        1 => format!("addroute {} direct", non_dist(rng)),
+                        2 => format!("rmroute {} direct", non_dist(rng)),
+                        _ => format!("distasset {}", rng.below(3)),
+                    },
+                };
+                let body = gen_inloan(rng, w, &who, k, &inner);
+                if last.vp[k] == 0 && rng.chance(1, 2) {
+                    self.g.setup.push(body);
+                    return Some(gen_fee_loan(rng, w, k));
+                }
                 return Some(body);
             }
         }
